@@ -156,7 +156,8 @@ func (m *ModuleInstance) ensureResourcesClosed(ctx context.Context) (err error) 
 		m.Sys = nil
 	}
 
-	if mem := m.MemoryInstance; mem != nil {
+	// Only the module that defines the memory releases its buffer: an importer shares it with its owner, which may be alive.
+	if mem := m.MemoryInstance; mem != nil && (m.Source == nil || m.Source.ImportMemoryCount == 0) {
 		if mem.expBuffer != nil {
 			mem.expBuffer.Free()
 			mem.expBuffer = nil
